@@ -87,15 +87,15 @@ EXCEPTIONS = [
     # ---- token iterators --------------------------------------------------------------------------------------
     dict(fn="types::TokenIter::<'_>::seek", what="Overflow:Add:usize", desc="some(SourceMap::lookup_token(arg1.i,arg2,arg3)).idx,1", count=1,
          reason="Token.idx is an index or insertion index into tokens (<= tokens.len() <= 2^56)"),
-    dict(fn="<types::TokenIter<'a> as core::iter::traits::iterator::Iterator>::next::{closure#0}", what="Overflow:Add:usize", desc="upvar:self.next_idx,1", count=1,
+    dict(fn="<types::TokenIter<'a> as core::iter::traits::iterator::Iterator>::next::{closure#0}", what="Overflow:Add:usize", desc="^arg1.next_idx,1", count=1,
          reason="incremented only after get_token(next_idx) returned Some, so next_idx < tokens.len()"),
-    dict(fn="<types::SourceIter<'a> as core::iter::traits::iterator::Iterator>::next::{closure#0}", what="Overflow:Add:u32", desc="upvar:self.next_idx,1", count=1,
+    dict(fn="<types::SourceIter<'a> as core::iter::traits::iterator::Iterator>::next::{closure#0}", what="Overflow:Add:u32", desc="^arg1.next_idx,1", count=1,
          reason="incremented only after get_source(next_idx) returned Some; fewer than 2^32 - 1 sources (assumption: inputs below 4 GiB)"),
     dict(fn="<types::SourceContentsIter<'a> as core::iter::traits::iterator::Iterator>::next", what="Overflow:Add:u32", desc="arg1.next_idx,1", count=1,
          reason="dominated by next_idx < get_source_count() (a u32)"),
-    dict(fn="<types::NameIter<'a> as core::iter::traits::iterator::Iterator>::next::{closure#0}", what="Overflow:Add:u32", desc="upvar:self.next_idx,1", count=1,
+    dict(fn="<types::NameIter<'a> as core::iter::traits::iterator::Iterator>::next::{closure#0}", what="Overflow:Add:u32", desc="^arg1.next_idx,1", count=1,
          reason="incremented only after get_name(next_idx) returned Some; fewer than 2^32 - 1 names"),
-    dict(fn="<types::SourceMapSectionIter<'a> as core::iter::traits::iterator::Iterator>::next::{closure#0}", what="Overflow:Add:u32", desc="upvar:self.next_idx,1", count=1,
+    dict(fn="<types::SourceMapSectionIter<'a> as core::iter::traits::iterator::Iterator>::next::{closure#0}", what="Overflow:Add:u32", desc="^arg1.next_idx,1", count=1,
          reason="incremented only after get_section(next_idx) returned Some; fewer than 2^32 - 1 sections"),
     # ---- lookups --------------------------------------------------------------------------------------------------
     dict(fn="types::SourceMap::lookup_token", what="Overflow:Sub:u32", desc="arg3,Token::get_dst_col(var:Token)", count=1,
